@@ -15,8 +15,10 @@ import time
 import traceback
 
 HERE = os.path.dirname(os.path.dirname(os.path.abspath(__file__)))
-EVIDENCE_DIR = os.path.join(HERE, "evidence")
-REPLAY_DIR = os.path.join(HERE, "replays")
+# the two overrides are used only by tools/mutant_run.sh (sensitivity runs must not
+# overwrite the evidence of the real tree)
+EVIDENCE_DIR = os.environ.get("VERIF_EVIDENCE_DIR") or os.path.join(HERE, "evidence")
+REPLAY_DIR = os.environ.get("VERIF_REPLAY_DIR") or os.path.join(HERE, "replays")
 FINDINGS_DIR = os.path.join(HERE, "findings")
 KNOWN_FILE = os.path.join(HERE, "known_findings.json")
 
